@@ -322,6 +322,16 @@ def build(tier):
                     'every update(round + 1, ..) writes the row of the learner count after the append, inside m_statistics; the early-exit learner (scaling failed) is appended without consulting the monitor and is never kept; '
                     'result.done(optimum.round()) is called inside its precondition, so the returned fold model keeps exactly optimum.round() learners (before merging) and optimum.round() + 1 statistics rows; '
                     'the returned per-sample values are the monitor snapshot (the values of the reported round) selected by the training resp. validation samples',
+                    'HISTORY LEMMA (monitor_history; induction = loop contract of a harness loop, histories of ARBITRARY length up to 2^62 observations): the real constructor, then one observation per round '
+                    '(round k with k learners; training error, validation error, with / without validation samples and the per-sample values arbitrary in every round) through the real done() used by the contract '
+                    'proved for it (same macro NV_CONTRACT_early_stopping_done): after EVERY observation the monitor has stopped iff the training error is below epsilon or no improvement larger than epsilon was accepted '
+                    'in the last `patience` rounds (summary form: rounds since the last accepted improvement >= patience; window form at a ghost round: none of the rounds k - patience + 1 .. k was accepted, and '
+                    'conversely a continuing monitor accepted one in that window or the start is that recent); round() / value() / values() (real accessors) are the round, validation error and per-sample values '
+                    'of the LAST accepted improvement (no later observation was accepted; the initial state counts as accepted at round 0 with value +max and the constructor snapshot)',
+                    '::fit feeds the monitor exactly such a history (k-th consultation with k learners, on the training / validation lists given to fit, configured epsilon / patience, values evaluated anew for every '
+                    'observation, never after a stop) and the SAME ghost summaries (history.h) are maintained inside the ::fit target: the returned fold model keeps exactly as many learners as the round of the last '
+                    'accepted improvement of the history this call fed (no later observation was accepted, that round\'s own observation was), the returned per-sample values are the ones observed in that round, '
+                    'and the monitor\'s last answer is the statement\'s verdict',
                     '::selected(values, samples): row k of the result is row k of values gathered by samples, shape (2, #samples)',
                     'gboost_model_t::fit fold averaging: bias = zero + bias of extra(optimum_trial, fold) for every fold exactly once, then times 1/folds once; m_wlearners = cleared + exactly one clone of every learner of every fold; '
                     'after merging every learner scaled by 1/folds exactly once; the final statistics stored by fit_result.store are evaluated on predictions of the FINAL model and selected by the samples given to fit(), stored once',
@@ -331,10 +341,12 @@ def build(tier):
                     'try_merge step of wlearner::merge (sum preservation): do_try_merge adds the other tables exactly when feature and table dimensions agree, else changes nothing; '
                     'table_wlearner_t / affine_wlearner_t::try_merge attempt it only with a learner of the same kind, its feature and its tables, and for look-up tables only with equal label hashes AND equal hash -> table mapping'],
         'not_decided': ['statistics equal those recomputed from scratch by predicting (numeric equality through loss/predict)',
-                        'the linear-model side of the statement (linear_t::fit, src/linear/util.cpp)',
-                        'history lemma (induction over the history from the transition contract) is not machine-checked; the native replay enumerates histories up to length 4 instead'],
+                        'the linear-model side of the statement (linear_t::fit, src/linear/util.cpp)'],
         'assumptions': ['gboost::mean_error is a deterministic function of (errors, samples) (assumed contract)',
                         'gboost parameters inside their registered domains: 10 <= max_rounds <= 10^6, 1 <= patience <= 1000 (gboost_model_t constructor; C19)',
+                        'history lemma: 1 <= patience <= 2^62 and at most 2^62 observations (so that round + patience does not wrap in size_t); the initial state of the monitor counts as an accepted improvement at round 0 '
+                        '(a first observation that does not improve on +max -- NaN, +inf, DBL_MAX -- does not count as a round without improvement); mean errors are arbitrary doubles per observation (NaN included); '
+                        'double subtraction uninterpreted (the statement holds for every interpretation of `value - epsilon`)',
                         'erased numerics of ::fit / gboost_model_t::fit (datasets, iterators, samplers, loss, solver, weak learners, outputs, gradients, clusters) do not touch the modelled objects; '
                         'gboost::evaluate overwrites `values` only; solver_t::minimize returns an arbitrary state; learner_t::fit_dataset touches the learner_t base only',
                         'wlearner::merge never increases the number of learners and keeps an empty list empty (C10); wlearner_t::clone copies the learner',
